@@ -39,6 +39,49 @@ static void children_in_order(struct st s, int k)
     __CPROVER_assert(w02_top(0, T_POS) == s.pos, "c02.callback.node-carries-the-builder's-current-position");
 }
 
+/* f(a1, ..., an) / P(a1, ..., an): the callee is the fragment below its n arguments.  A function call is one FUN_CALL /
+   FUN_CALL_EXT node whose children are the callee and the arguments in source order; a process-set lookup is the ARRAY
+   chain (...((P[a1])[a2])...)[an] - the FIRST argument indexes first - typed one array dimension shallower per argument. */
+void w02_instance(int unbound);
+void w02_call_end(int n);
+int w02_chain(int j, int what);
+void h_c02_call_end(void)
+{
+    int n, ct;
+    __CPROVER_assume(n >= 0 && n <= 3 && ct >= 5000 && ct < 5020);
+    struct st s;
+    __CPROVER_assume(s.d >= n + 1 && s.d <= 6);
+    for (int i = 0; i < 6; i++) __CPROVER_assume(VALID_KIND(s.k[i]) && s.t[i] >= 0 && s.t[i] < 5000);
+    s.k[s.d - n - 1] = K_IDENTIFIER; s.t[s.d - n - 1] = ct;  /* the callee: an identifier of a callable (or not callable) type */
+    w02_init(s.d, s.k[0], s.k[1], s.k[2], s.k[3], s.k[4], s.k[5], s.t[0], s.t[1], s.t[2], s.t[3], s.t[4], s.t[5], s.pos);
+    int arity = (ct / 4) % 5, cls = ct % 4;
+    w02_instance(arity);
+    w02_call_end(n);
+    frame(s, n + 1, "");
+    if (cls == 0 || cls == 1) {
+        children_in_order(s, n + 1);
+        __CPROVER_assert(w02_top(0, T_KIND) == (cls == 0 ? K_FUN_CALL : K_FUN_CALL_EXT), "c02.expr_call_end.a-call-of-a-function-is-a-FUN_CALL-(external:-FUN_CALL_EXT)-node");
+        __CPROVER_assert(w02_top(0, T_TYPE) == ct + 20000, "c02.expr_call_end.the-call-has-the-function's-result-type");
+        __CPROVER_assert(verif_errors == (n + 1 != arity), "c02.expr_call_end.a-wrong-number-of-arguments-is-reported");
+        if (n == 3) __CPROVER_assert(0, "reach:function-call-with-three-arguments");
+    } else if (cls == 2) {
+        __CPROVER_assert(verif_errors == (n != arity), "c02.expr_call_end.a-wrong-number-of-process-arguments-is-reported");
+        if (n == arity) {
+            for (int j = 0; j < 3; j++) {
+                if (j < n) {
+                    __CPROVER_assert(w02_chain(j, 0) == K_ARRAY, "c02.expr_call_end.process-set-lookup:one-ARRAY-node-per-argument");
+                    __CPROVER_assert(w02_chain(j, 1) == s.d - 1 - j, "c02.expr_call_end.process-set-lookup:the-first-argument-indexes-first-(outermost-node-=-last-argument)");
+                    __CPROVER_assert(w02_chain(j, 3) == 900000 - 10000 * j, "c02.expr_call_end.process-set-lookup:each-index-removes-one-array-dimension");
+                }
+            }
+            __CPROVER_assert(w02_chain(n, 0) == K_IDENTIFIER && (n == 0 || w02_chain(n - 1, 2) == s.d - n - 1), "c02.expr_call_end.process-set-lookup:the-innermost-operand-is-the-process-set");
+            if (n == 3) __CPROVER_assert(0, "reach:lookup-with-three-arguments");
+        }
+    } else {
+        __CPROVER_assert(verif_errors == 1 && w02_top(0, T_KIND) == K_CONSTANT, "c02.expr_call_end.calling-something-that-is-neither-function-nor-process-set-is-reported");
+    }
+    REACH;
+}
 void h_c02_binary(void)
 {
     struct st s = any_stack(2);
